@@ -134,14 +134,66 @@ export class Interp {
     return vnode;
   }
 
+  /**
+   * Evaluation plan (C11): attribute expressions run in source order, except that with
+   * mergeProps on a repeated class/style/on* attribute is evaluated at the position of its
+   * first occurrence within the same run of non-spread attributes.
+   */
+  plan(attrs) {
+    const order = [];
+    let run = new Map();
+    const mergeOn = this.opts.mergeProps !== false;
+    attrs.forEach((a, idx) => {
+      const breaksRun = a.t === 'spread' || (a.t === 'attr' && this.opts.transformOn && mergeOn && (a.name === 'on' || a.name === 'nativeOn'));
+      if (breaksRun) { run = new Map(); order.push([idx]); return; }
+      const mergeable = a.t === 'attr' && mergeOn && (a.name === 'class' || a.name === 'style' || a.name.startsWith('on'))
+        && !(this.opts.transformOn && (a.name === 'on' || a.name === 'nativeOn'));
+      if (mergeable && run.has(a.name)) { run.get(a.name).push(idx); return; }
+      const slot = [idx];
+      if (mergeable) run.set(a.name, slot);
+      order.push(slot);
+    });
+    return order.flat();
+  }
+
+  evalAttr(a, isComp) {
+    switch (a.t) {
+      case 'attr': return { v: this.attrValue(a.val) };
+      case 'spread': return { v: this.leaf(a.i) };
+      case 'dir': {
+        const d = a.den;
+        const value = d.value.k === 'leaf' ? this.leaf(d.value.i) : d.value.k === 'str' ? d.value.v : undefined;
+        let arg;
+        if (d.arg) arg = d.arg.k === 'leaf' ? this.leaf(d.arg.i) : d.arg.v;
+        return { value, arg };
+      }
+      case 'html': case 'textc': {
+        const d = a.den;
+        return { v: d.value.k === 'leaf' ? this.leaf(d.value.i) : d.value.v };
+      }
+      case 'model': {
+        const d = a.den;
+        const value = this.leaf(d.target);
+        let name = 'modelValue';
+        if (d.arg) name = d.arg.k === 'leaf' ? this.leaf(d.arg.i) : d.arg.v;
+        return { value, name };
+      }
+      case 'vslots': return {};
+      default: throw new Error('bad attr item ' + a.t);
+    }
+  }
+
   attrs(attrs, el, isComp) {
     const segments = [];
     const dirs = [];
     let vslots;
-    for (const a of attrs) {
+    const vals = new Map();
+    for (const idx of this.plan(attrs)) vals.set(idx, this.evalAttr(attrs[idx], isComp));
+    attrs.forEach((a, idx) => {
+      const ev = vals.get(idx);
       switch (a.t) {
         case 'attr': {
-          const v = this.attrValue(a.val);
+          const v = ev.v;
           if (this.opts.transformOn && (a.name === 'on' || a.name === 'nativeOn')) {
             const ret = {};
             for (const evt of Object.keys(v)) ret[`on${evt[0].toUpperCase()}${evt.slice(1)}`] = v[evt];
@@ -149,31 +201,23 @@ export class Interp {
           } else segments.push({ obj: { [a.name]: v } });
           break;
         }
-        case 'spread': segments.push({ obj: this.leaf(a.i), spread: true }); break;
+        case 'spread': segments.push({ obj: ev.v, spread: true }); break;
         case 'dir': {
           const d = a.den;
-          const value = d.value.k === 'leaf' ? this.leaf(d.value.i) : d.value.k === 'str' ? d.value.v : undefined;
-          let arg;
-          if (d.arg) arg = d.arg.k === 'leaf' ? this.leaf(d.arg.i) : d.arg.v;
           const modifiers = {};
           for (const m of d.mods || []) modifiers[m] = true;
           const dir = d.name === 'show' ? this.rt.vue.vShow
             : this.quiet(() => this.rt.vue.resolveDirective(d.name));
-          dirs.push({ dir, value, arg, modifiers });
+          dirs.push({ dir, value: ev.value, arg: ev.arg, modifiers });
           break;
         }
-        case 'html': case 'textc': {
-          const d = a.den;
-          const value = d.value.k === 'leaf' ? this.leaf(d.value.i) : d.value.v;
-          segments.push({ obj: { [a.t === 'html' ? 'innerHTML' : 'textContent']: value } });
+        case 'html': case 'textc':
+          segments.push({ obj: { [a.t === 'html' ? 'innerHTML' : 'textContent']: ev.v } });
           break;
-        }
         case 'model': {
           const d = a.den;
-          const value = this.leaf(d.target);
-          let name = 'modelValue';
-          if (d.arg) name = d.arg.k === 'leaf' ? this.leaf(d.arg.i) : d.arg.v;
-          const listener = this.rt.tag(() => {}, `ref-listener:${this.models.length}`);
+          const { value, name } = ev;
+          const listener = () => {};
           this.models.push({ name, target: d.target, host: d.host });
           const modifiers = {};
           for (const m of d.mods || []) modifiers[m] = true;
@@ -192,7 +236,7 @@ export class Interp {
         case 'vslots': vslots = a; break;
         default: throw new Error('bad attr item ' + a.t);
       }
-    }
+    });
     return { segments, dirs, vslots };
   }
 
